@@ -216,6 +216,10 @@ func VerifRdFail() {
 	verifrt.Assume(k >= 0 && k < ref.consumed)
 	k = verifrt.Concretize(k)
 	fault := verifrt.ErrValue("src")
+	if verifrt.Param("WRAPEOF") == 1 {
+		// a transport error that wraps io.EOF (errors.Is(err, io.EOF) is true, err != io.EOF)
+		fault = &vhWrapEOF{}
+	}
 	src := &vhSrc{data: c.stream[:k], endErr: fault, withLast: with == 1 && k > 0}
 	r := vhOpen(bufio.NewReaderSize(src, 16), 1)
 	out, err, stalls := vhDrain(r, 5, M+c.preOut+300)
@@ -282,3 +286,8 @@ func VerifRdGate() {
 		verifrt.Assert(got >= want, "C11:data-withheld")
 	}
 }
+
+type vhWrapEOF struct{}
+
+func (*vhWrapEOF) Error() string { return "connection reset (EOF)" }
+func (*vhWrapEOF) Unwrap() error { return io.EOF }
